@@ -1,6 +1,7 @@
 import Cppcms.Common
 import Cppcms.C12.Model
 import Cppcms.C12.Spec
+import Cppcms.C12.FileBuffer
 /-! Line-protocol driver for C12.
 
 * `mp <contentType> <memLimit|-1> <diskOk> <chunk>*` : `multipart_parser` driven as the repo's own test
@@ -70,6 +71,19 @@ def evStr : Ev → String
   | .endOfContent => "end"
   | .rawChunk n => s!"c{n}"
 
+/-- the `fb` line: write schedule against the `overflow()`-level model of `file_buffer` -/
+def fbRun (diskOk : Bool) : FB → Bytes → List Nat → List String → FB × List String
+  | fb, _, [], acc => (fb, acc)
+  | fb, data, k :: ks, acc =>
+    let want := if k == 0 then 1 else k
+    if data.length < want then (fb, acc) else
+    let chunk := data.take want
+    let (fb', got) :=
+      if k == 0 then (match fb.sputc diskOk (chunk.headD 0) with | some f => (f, 1) | none => (fb, 0))
+      else fb.sputn diskOk chunk
+    let tok := s!"{boolStr fb'.inMem}/{fb'.size}/{got}"
+    if got == want then fbRun diskOk fb' (data.drop want) ks (tok :: acc) else (fb', tok :: acc)
+
 def step (_ : Unit) (line : String) : Unit × String :=
   let r : String :=
     match words line with
@@ -83,6 +97,12 @@ def step (_ : Unit) (line : String) : Unit × String :=
            let (p, toks) := mpRun cfg {} chunks []
            -- the harness reads every finished file back through `file.data()` from offset 0
            " ".intercalate toks.reverse ++ " F " ++ filesStr (p.files.map fun f => { f with data := readBackFrom cfg.memLimit f.data 0 }))
+      | _, _, _ => "bad-op"
+    | ["fb", lim, disk, dat, ops] =>
+      match lim.toNat?, parseHex dat, (ops.splitOn ",").mapM String.toNat? with
+      | some lim, some dat, some ops =>
+        let (fb, toks) := fbRun (disk == "1") (FB.fresh lim) dat ops []
+        " ".intercalate toks.reverse ++ " R " ++ toHex (readBackFrom lim fb.content 0)
       | _, _, _ => "bad-op"
     | ["ct", h] =>
       match parseHex h with
